@@ -418,9 +418,25 @@ def run_config(contract, cfg, facets="VCSTRN", prime=None, tier="quick", max_pat
         P = Path(prefix)
         set_path(P)
         try:
-            w, g, c = new_world(P, prime, ct.REGISTRY, contract.modules, contract=contract)
-            c.cfg = cfg
-            fn, args, kwargs = contract.setup(c, cfg)
+            try:
+                w, g, c = new_world(P, prime, ct.REGISTRY, contract.modules, contract=contract)
+                c.cfg = cfg
+                fn, args, kwargs = contract.setup(c, cfg)
+            except (PathAbort, Escape, interp.Unsupported, RecursionError):
+                raise
+            except Exception as e:
+                where = getattr(e, "_pyvc_where", None)
+                if where is None or not str(where[0]).startswith("pysnark"):
+                    raise
+                # The code that runs BEFORE the function under contract is entered (module import, initialisation,
+                # the earlier statements of a client program) raised inside the repository's own code.  On the
+                # unchanged tree it completes; the obligation is reported only when CPython running the real code
+                # raises the same exception (run.py), otherwise it is an engine fault.
+                res["obligations"].append(dict(
+                    name="setup.completes", path="", backend="interpreter", s=0.0, verdict="refuted", model={},
+                    detail="%s: %s at %s:%s" % (type(e).__name__, str(e)[:200], where[0], where[1]),
+                    exc=type(e).__name__, engine_trace=traceback.format_exc()[-1200:]))
+                break
             for f in contract.pre(c, *args, **kwargs):
                 P.assume(formula(f))
             if P.solver.check() == z3.unsat:
@@ -669,7 +685,7 @@ def run_config(contract, cfg, facets="VCSTRN", prime=None, tier="quick", max_pat
     res["sig"] = next(iter(res["sigs"].values()))[0] if res["sigs"] else None
     res["sigs"] = len(res["sigs"])
     res["stubs"] = sorted(res["stubs"])
-    if cfg.get("raises_only"):
+    if cfg.get("raises_only") or any(o["name"] == "setup.completes" for o in keep):
         pass
     elif contract.covers_normal and res["normal_paths"] == 0 and not res["engine_errors"]:
         res["obligations"].append(dict(name="cover.normal_exit", path="*", verdict="refuted", backend="structural",
